@@ -75,6 +75,14 @@ class Exec(ExprMixin, CallMixin, BuiltinMixin, StmtMixin):
         b = self.truth(self.spec_call('sem', [self.coerce(args[1], NODE)], path, node), path)
         return VBool(a == b)
 
+    def prim_appended(self, args, path, node):
+        """new == old + [x] for list fields, stated on indices (no sequence terms)"""
+        new, old, x = args
+        ln, lo = self.length(new, path), self.length(old, path)
+        j = self.ctx.fresh('j', z3.IntSort())
+        same_prefix = z3.ForAll([j], z3.Implies(z3.And(0 <= j, j < lo), self.at(new, j, path).t == self.at(old, j, path).t))
+        return VBool(z3.And(ln == lo + 1, self.identical(self.at(new, lo, path), x), same_prefix))
+
     def prim_owned(self, args, path, node):
         N = self.ctx.sorts.Node
         return VBool(N.owned(self.coerce(args[0], NODE).t))
@@ -206,6 +214,7 @@ def build(index, contracts, specs, rec, fid):
     ctx.inlined = set()
     ctx.used_contracts = set()
     ctx.wf_on = False
+    ctx.opaque_attrs = {}
     ctx.definitional = set()
     ctx.axiom_limit = None
     ctx.applying = set()
@@ -268,6 +277,9 @@ def build(index, contracts, specs, rec, fid):
         n_ret += 1
         res = p.ret if p.ret is not None else VNone()
         cenv = dict(env)
+        for lk, lv in p.env.items():
+            if lk not in cenv and isinstance(lv, Val):
+                cenv[lk] = lv          # clauses may name locals of the function (their value at the return)
         cenv['result'] = res
         # `old_x` = entry value; after-state heap is p.heap
         for name, clause in con.posts:
